@@ -388,7 +388,7 @@ func (em *emitter) prepareCallParameters(fType reflect.Type, fArgs []ast.Express
 				slice := varParamRegs[0]
 				if varArgsCount == 0 {
 					// The slice must be nil, not empty.
-					c := em.fb.makeGeneralValue(reflect.Zero(sliceType))
+					c := em.fb.makeGeneralValue(em.types.Zero(sliceType))
 					em.changeRegister(true, c, slice, sliceType, sliceType)
 				} else {
 					pos := fArgs[0].Pos()
